@@ -14,6 +14,8 @@ CV == INSTANCE Convert          \* the conversion rules, instantiated on code-po
 
 VARIABLES obj, disk
 svars == <<obj, disk>>
+VARIABLE fs             \* the named files of the session's filesystem: Seq([n |-> name, t |-> text]); only the file actions
+                        \* at the end of this module speak about it (every other action is used as  A /\ UNCHANGED fs)
 
 K(s) == s          \* keys are texts (Seq of code points), written out below
 K_STOPS == <<83, 84, 79, 80, 83>>
@@ -259,6 +261,52 @@ TimeNotes(j, opt, res) ==      \* res: the timed notes the library yielded, [p, 
   /\ TimeNotesInDomain(obj, j)
   /\ res = TimedNotesOf(obj, j, opt)
   /\ UNCHANGED svars
+-----------------------------------------------------------------------------
+(* Named files: serialize into a file, simfile.open(name), simfile.mutate(name, ...).                             *)
+FHas(f, n) == \E i \in DOMAIN f : f[i].n = n
+FGet(f, n) == f[CHOOSE i \in DOMAIN f : f[i].n = n].t
+FPut(f, n, t) == IF FHas(f, n) THEN [i \in DOMAIN f |-> IF f[i].n = n THEN [n |-> n, t |-> t] ELSE f[i]]
+                 ELSE Append(f, [n |-> n, t |-> t])
+FAsSet(f) == {<<f[i].n, f[i].t>> : i \in DOMAIN f}
+IsSerializationOf(o, text) ==
+  LET lx == Lex(text, TRUE) IN
+  lx.st = "ok" /\ (IF o.fmt = "sm" THEN SerOK_SM(Body(o), lx.params) ELSE SerOK_SSC(Body(o), lx.params))
+WriteFile(name, text) ==
+  /\ Saveable(obj) /\ IsSerializationOf(obj, text)
+  /\ fs' = FPut(fs, name, text) /\ UNCHANGED svars
+(* simfile.open(name): the format is what the file NAME says (.sm / .ssc, any letter case), else what the content says *)
+LoadedFrom(name, strict) == Load(FGet(fs, name), strict, "named", name)
+OpenFile(name, strict, res) ==
+  /\ FHas(fs, name)
+  /\ LET r == LoadedFrom(name, strict) IN
+     IF r.st # "ok" THEN res \in {r.st, r.alt} /\ UNCHANGED obj
+     ELSE res = "ok" /\ obj' = [fmt |-> r.fmt, items |-> r.obj.items, charts |-> r.obj.charts]
+  /\ UNCHANGED <<disk, fs>>
+(* with simfile.mutate(name, output_filename = out, backup_filename = bak) as sf: <edits>; <body ends>            *)
+(* edits: [op "setkey", k, v] | [op "setattr", name, v] | [op "delkey", k] (present keys only);                     *)
+(* body: "normal" | "CancelMutation" | an exception class name; <<>> for out / bak: not given                       *)
+ApplyEdit(o, e) == CASE e.op = "setkey" -> [o EXCEPT !.items = MPut(@, e.k, e.v)]
+                     [] e.op = "setattr" -> [o EXCEPT !.items = MPut(@, Sel(o.fmt, o.items, e.name), e.v)]
+                     [] e.op = "delkey" -> [o EXCEPT !.items = MDel(@, e.k)]
+RECURSIVE ApplyEdits(_, _, _)
+ApplyEdits(o, es, i) == IF i > Len(es) THEN o ELSE ApplyEdits(ApplyEdit(o, es[i]), es, i + 1)
+MutEntry(name) == LET r == LoadedFrom(name, TRUE) IN [fmt |-> r.fmt, items |-> r.obj.items, charts |-> r.obj.charts]
+MutateInDomain(name, out, bak, edits) ==
+  /\ FHas(fs, name) /\ LoadedFrom(name, TRUE).st = "ok"
+  /\ (bak = <<>> \/ bak \notin {name, out}) /\ (out = <<>> \/ out # name)
+  /\ Saveable(MutEntry(name)) /\ Saveable(ApplyEdits(MutEntry(name), edits, 1))
+MutateFile(name, out, bak, edits, body, res, texts) ==     \* texts: [out, bak]: what the filesystem holds afterwards
+  /\ MutateInDomain(name, out, bak, edits)
+  /\ LET o0 == MutEntry(name)  o1 == ApplyEdits(o0, edits, 1)
+         target == IF out = <<>> THEN name ELSE out IN
+     IF body # "normal" THEN /\ res = (IF body = "CancelMutation" THEN "ok" ELSE body)      \* cancelled: no exception; raised: that exception
+                             /\ fs' = fs                                                   \* and nothing is written
+     ELSE /\ res = "ok"
+          /\ IsSerializationOf(o1, texts.out)                                              \* exactly the edited simfile
+          /\ (bak # <<>> => IsSerializationOf(o0, texts.bak))                              \* the backup: the simfile as it was read
+          /\ fs' = FPut(IF bak # <<>> THEN FPut(fs, bak, texts.bak) ELSE fs, target, texts.out)
+  /\ UNCHANGED svars
+
 (* invariant of every session: what is on disk re-opens as something the object was at the time of saving; checked by Reopen *)
 TypeOK == obj.fmt \in {"sm", "ssc"} /\ MUnique(obj.items)
 =============================================================================
